@@ -13,6 +13,8 @@ pub struct Runner {
     pub w: World,
     pub apps: Apps,
     pub blackhole: Vec<bool>,
+    /// streams the explicit `drain` application knows per connection: (id, terminal outcome seen)
+    pub drain_known: std::collections::BTreeMap<(usize, usize), Vec<(u64, bool)>>,
 }
 
 fn addr_from(v: &Value) -> SocketAddr {
@@ -32,6 +34,7 @@ impl Runner {
             w,
             apps: Apps::default(),
             blackhole: vec![false; n],
+            drain_known: Default::default(),
         }
     }
 
@@ -286,6 +289,28 @@ impl Runner {
             "splice" => self.splice(s),
             "vn" => self.version_negotiation(s),
             "mitm" => self.install_mitm(s),
+            "accept_waiting" => {
+                // decide about the connection attempts parked by the "wait" incoming policy
+                let n = s["n"].as_u64().unwrap_or(0) as usize;
+                let how = s["how"].as_str().unwrap_or("accept").to_string();
+                let list = std::mem::take(&mut self.w.nodes[n].waiting);
+                let t = self.w.now_us;
+                self.w.log(json!({"ev":"AcceptWaiting","t":t,"n":n,"how":how,"count":list.len(),
+                    "ep":self.w.ep_probe(n)}));
+                for inc in list {
+                    if how == "retry" && inc.may_retry() {
+                        self.w.retry(n, inc);
+                    } else {
+                        self.w.accept(n, inc);
+                    }
+                }
+                // policy for connection attempts that arrive later (e.g. a retransmitted Initial)
+                if let Some(p) = s["then"].as_str() {
+                    self.w.cfg.incoming = p.to_string();
+                }
+                self.apps.tick(&mut self.w);
+            }
+            "drain" => self.drain(s),
             "pollx" => {
                 // debugging aid: one explicit poll_transmit with the outcome logged either way
                 let n = s["n"].as_u64().unwrap() as usize;
@@ -337,6 +362,52 @@ impl Runner {
                 }
             }
             o => panic!("unknown step {o}"),
+        }
+    }
+
+    /// Explicit reading application: accept every stream the peer opened, read each known stream
+    /// until it blocks or ends, take every datagram. {"do":"drain","n":0,"c":0?,"max_len":k?}
+    fn drain(&mut self, s: &Value) {
+        let n = s["n"].as_u64().unwrap_or(0) as usize;
+        let max_len = s["max_len"].as_u64().unwrap_or(1 << 20);
+        let conns: Vec<usize> = match s["c"].as_u64() {
+            Some(c) => vec![c as usize],
+            None => self.w.nodes[n].conns.keys().copied().collect(),
+        };
+        for c in conns {
+            if !self.w.nodes[n].conns.contains_key(&c) {
+                continue;
+            }
+            // the events are consumed by this application
+            let _ = self.w.take_app_events(n, c);
+            for dir in 0..2u64 {
+                for _ in 0..10_000 {
+                    let r = self.w.op(n, c, &json!({"op":"accept","dir":dir}));
+                    if r["res"]["k"] != "Some" {
+                        break;
+                    }
+                    let id = r["res"]["id"].as_u64().unwrap();
+                    self.drain_known.entry((n, c)).or_default().push((id, false));
+                }
+            }
+            let known = self.drain_known.get(&(n, c)).cloned().unwrap_or_default();
+            for (i, (id, done)) in known.iter().enumerate() {
+                if *done {
+                    continue;
+                }
+                let r = self.w.op(n, c, &json!({"op":"read","id":id,"ordered":true,"max_len":max_len}));
+                let k = r["res"]["k"].as_str().unwrap_or("");
+                if k == "Finished" || k == "Reset" || k == "ClosedStream" {
+                    self.drain_known.get_mut(&(n, c)).unwrap()[i].1 = true;
+                }
+            }
+            for _ in 0..10_000 {
+                let r = self.w.op(n, c, &json!({"op":"recv_dgram"}));
+                if r["res"]["k"] != "Some" {
+                    break;
+                }
+            }
+            self.w.after_input(n, c);
         }
     }
 
